@@ -47,7 +47,8 @@ pub fn parse_csv_row(row: &str) -> Vec<String> {
         let (result, nin, nout) = rdr.read_field(bytes, &mut output);
         let end = match result {
             ReadFieldResult::InputEmpty => true,
-            ReadFieldResult::Field { .. } => false,
+            // The record ends here when the row ends with an empty cell (or a line break).
+            ReadFieldResult::Field { record_end } => record_end,
             ReadFieldResult::End => true,
             _ => unreachable!(),
         };
